@@ -287,7 +287,7 @@ var placements2 = []struct {
 	o model2d.Coord
 	d float64
 }{{model2d.XY(0, 0), 1}, {model2d.XY(0.1, -0.7), 0.3}}
-var algos2 = []string{"MarchingSquares", "MarchingSquaresSearch2", "MarchingSquaresFilterTrue"}
+var algos2 = []string{"MarchingSquares", "MarchingSquaresSearch2", "MarchingSquaresFilterTrue", "MarchingSquaresSearchFilter1", "MarchingSquaresConjShift", "MarchingSquaresC2F"}
 
 func checkMS2(r *ev.Run, c mcCase) {
 	pl := placements2[c.Place]
@@ -305,6 +305,12 @@ func checkMS2(r *ev.Run, c mcCase) {
 			m = model2d.MarchingSquaresSearch(sol, pl.d, 2)
 		case "MarchingSquaresFilterTrue":
 			m = model2d.MarchingSquaresFilter(sol, func(*model2d.Rect) bool { return true }, pl.d)
+		case "MarchingSquaresSearchFilter1":
+			m = model2d.MarchingSquaresSearchFilter(sol, func(*model2d.Rect) bool { return true }, pl.d, 1)
+		case "MarchingSquaresConjShift":
+			m = model2d.MarchingSquaresConj(sol, pl.d, 1, &model2d.Translate{Offset: model2d.XY(3*pl.d, -2*pl.d)})
+		case "MarchingSquaresC2F":
+			m = model2d.MarchingSquaresC2F(sol, pl.d, pl.d, 0, 1)
 		}
 	}); p != "" {
 		r.Violation("ms2/"+c.Algo+"/panic", "panic: "+p, c)
